@@ -64,6 +64,7 @@ type HarnessResult struct {
 	Unwind      int
 	Schedules   int
 	Assumptions int
+	NoNative    bool
 }
 
 type RunConfig struct {
@@ -144,6 +145,7 @@ func RunHarness(l *Loaded, h *HarnessFn, cfg RunConfig) (res *HarnessResult) {
 	res.Nondets = len(e.nondets)
 	res.Asserts = e.asserts
 	res.Unwind = e.opts.Unwind
+	res.NoNative = e.NoNative
 	if res.Status != "ok" {
 		return res
 	}
